@@ -4,7 +4,7 @@
 # so any edit to /repo triggers a rebuild. Serialised with flock; keeps the 3 newest builds.
 set -euo pipefail
 REPO=${IMB_REPO:-/repo}
-CACHE=${IMB_CACHE:-/verif/.cache}
+CACHE=${IMB_CACHE:-${VERIF_DIR:-/verif}/.cache}
 EXTRA_DEFS=${IMB_EXTRA_CFLAGS:-}
 mkdir -p "$CACHE"
 hash=$( (cd "$REPO" && find lib cmake CMakeLists.txt -type f \( -name '*.c' -o -name '*.h' -o -name '*.asm' -o -name '*.inc' -o -name '*.cmake' -o -name 'CMakeLists.txt' -o -name '*.def' \) -print0 | sort -z | xargs -0 sha256sum; echo "$EXTRA_DEFS") | sha256sum | cut -c1-20)
